@@ -31,7 +31,7 @@ pub fn tx_of(r: &mut Rng, s: &Shape) -> Transaction {
     let inputs: Vec<TxIn> = (0..s.nin).map(|i| if s.all_coinbase || (s.coinbase_first && i == 0) { TxIn::Gen { height: vi(r) } } else {
         TxIn::ToKey { amount: vi(r), key_offsets: { let m = if s.vary_rings && i > 0 { r.range(1, s.ring as u64 + 3) as usize } else { s.ring }; (0..m).map(|_| vi(r)).collect() }, k_image: KeyImage { image: Hash(r.arr32()) } } }).collect();
     let outputs: Vec<TxOut> = (0..s.nout).map(|_| TxOut { amount: vi(r), target: if r.chance(1, 2) { TxOutTarget::ToKey { key: r.arr32() } } else { TxOutTarget::ToTaggedKey { key: r.arr32(), view_tag: r.byte() } } }).collect();
-    let extra = RawExtraField(r.bytes(s.extra_len));
+    let extra = RawExtraField(if r.chance(1, 4) { structured_extra(r, s.nout) } else { r.bytes(s.extra_len) });
     let prefix = TransactionPrefix { version: VarInt(s.version), unlock_time: vi(r), inputs, outputs, extra };
     if s.version == 1 {
         let signatures = prefix.inputs.iter().filter_map(|i| match i { TxIn::ToKey { key_offsets, .. } => Some((0..key_offsets.len()).map(|_| Signature { c: key(r), r: key(r) }).collect()), _ => None }).collect();
@@ -60,6 +60,21 @@ pub fn tx_of(r: &mut Rng, s: &Shape) -> Transaction {
     if matches!(t, RctType::Bulletproof | RctType::Bulletproof2 | RctType::Clsag | RctType::BulletproofPlus) { p.pseudo_outs = keys(r, nin); }
     Transaction { prefix, signatures: vec![], rct_signatures: RctSig { sig: Some(base), p: Some(p) } }
 }
+/// an extra that parses completely as sub-fields: tx public key(s), nonce, merge-mining tag (sometimes with a foreign size byte),
+/// additional keys (sometimes fewer or more than outputs), MinerGate blob, trailing padding
+pub fn structured_extra(r: &mut Rng, nout: usize) -> Vec<u8> {
+    use curve25519_dalek::constants::ED25519_BASEPOINT_POINT as G; use curve25519_dalek::scalar::Scalar;
+    let mut pk = |r: &mut Rng| (Scalar::from(r.next() | 1) * G).compress().to_bytes();
+    let mut e = vec![];
+    if !r.chance(1, 8) { e.push(1); e.extend(pk(r)); }
+    if r.chance(1, 3) { let n = r.below(40) as usize; e.push(2); e.extend(varint_bytes(n as u64)); e.extend(r.bytes(n)); }
+    if r.chance(1, 3) { let depth = r.u64_boundary(); let dv = varint_bytes(depth); e.push(3); e.push(if r.chance(1, 2) { 32 + dv.len() as u8 } else { r.byte() }); e.extend(dv); e.extend(r.bytes(32)); }
+    if r.chance(1, 2) { let k = match r.below(4) { 0 => nout, 1 => nout.saturating_sub(1).max(1), 2 => nout + 1, _ => 1 }; e.push(4); e.extend(varint_bytes(k as u64)); for _ in 0..k { e.extend(pk(r)); } }
+    if r.chance(1, 6) { e.push(1); e.extend(pk(r)); }
+    if r.chance(1, 6) { let n = r.below(20) as usize; e.push(0xde); e.extend(varint_bytes(n as u64)); e.extend(r.bytes(n)); }
+    if r.chance(1, 4) { e.push(0); e.extend(vec![0u8; r.below(6) as usize]); }
+    e
+}
 pub fn tx(r: &mut Rng) -> Transaction { let s = shape(r); tx_of(r, &s) }
 
 pub fn miner_tx(r: &mut Rng) -> Transaction {
@@ -84,7 +99,7 @@ pub fn mutate(r: &mut Rng, b: &[u8]) -> Vec<u8> {
         4 => { let i = r.below(bb.len().min(48) as u64) as usize; bb[i] = *r.pick(&[0u8, 1, 2, 3, 4, 5, 6, 7, 0xff, 0x80, 0x7f, 0xfe]); }
         5 => { let k = r.range(1, 4) as usize; let extra = r.bytes(k); bb.extend(extra); }
         6 => { // splice a non-minimal / overflowing varint somewhere in the first bytes
-            let i = r.below(bb.len().min(24) as u64) as usize; let v: &[u8] = *r.pick(&[&[0x80u8, 0x00][..], &[0xff, 0xff, 0xff, 0xff, 0xff, 0xff, 0xff, 0xff, 0xff, 0x02][..], &[0x80, 0x80, 0x00][..], &[0xff, 0xff, 0xff, 0xff, 0xff, 0xff, 0xff, 0xff, 0xff, 0x01][..]]);
+            let i = r.below(bb.len().min(24) as u64) as usize; let v: &[u8] = *r.pick(&[&[0x80u8, 0x00][..], &[0xff, 0xff, 0xff, 0xff, 0xff, 0xff, 0xff, 0xff, 0xff, 0x02][..], &[0x80, 0x80, 0x00][..], &[0xff, 0xff, 0xff, 0xff, 0xff, 0xff, 0xff, 0xff, 0xff, 0x01][..], &[0xff, 0xff, 0xff, 0xff, 0xff, 0xff, 0xff, 0xff, 0xff, 0x81, 0x01][..], &[0x80, 0x80, 0x80, 0x80, 0x80, 0x80, 0x80, 0x80, 0x80, 0x81, 0x01][..], &[0x80, 0x80, 0x80, 0x80, 0x80, 0x80, 0x80, 0x80, 0x80, 0x80, 0x01][..]]);
             bb.splice(i..i + 1, v.iter().copied()); }
         7 => { let i = r.below(bb.len() as u64) as usize; if i + 1 < bb.len() { bb.remove(i); } }
         _ => { let i = r.below(bb.len() as u64) as usize; let j = r.below(bb.len() as u64) as usize; bb.swap(i, j); }
